@@ -24,13 +24,14 @@ PROPERTY = {
     # CBMC treats arrays above 64 elements with the array theory unless told otherwise; the 512-word bitmap
     # is then intractable (measured: > 10 min per case). Field-sensitive arrays make every case a small query.
     "kani_args": ["--cbmc-args", "--max-field-sensitivity-array-size", "1024"],
-    "kani": [Harness(f"c02_allocate_b{b:02d}", f"C02.stream_id_set.allocate.k{32*b}_{32*b+31}", "PROVED-C",
-                     f"real StreamIdSet::allocate, first non-full word k in {32*b}..={32*b+31} (concrete), word k and all later words symbolic: returns the lowest free id, sets exactly that bit, no i16 overflow",
-                     functions=[F + "StreamIdSet::allocate"]) for b in range(16)] + [
-        Harness("c02_probe_k000", "C02.probe0", "PROVED-C", "probe", carries=False, timeout=300),
-        Harness("c02_probe_k300", "C02.probe300", "PROVED-C", "probe", carries=False, timeout=300),
-        Harness("c02_probe_k511", "C02.probe511", "PROVED-C", "probe", carries=False, timeout=300),
-        Harness("c02_allocate_full", "C02.stream_id_set.allocate.full", "PROVED-C", "all ids used => None, state unchanged", functions=[F + "StreamIdSet::allocate"]),
+    "kani": [
+        Harness("c02_allocate_small8", "C02.stream_id_set.allocate.small8", "BOUNDED",
+                "real StreamIdSet::allocate, complete contract (minimum free id, exactly its bit set, others unchanged, None iff full) on a fully symbolic bitmap",
+                bound="8-word bitmap (512 ids) instead of 512 words; all 2^512 states", functions=[F + "StreamIdSet::allocate"]),
+    ] + [Harness(f"c02_allocate_512_k{k:03d}", f"C02.stream_id_set.allocate.512.k{k}", "BOUNDED",
+                 f"real 512-word bitmap, words < {k} full, word {k} symbolic, later words zero: lowest free id returned, only its bit set, no i16 overflow",
+                 bound="state shape restricted (later words concrete)", functions=[F + "StreamIdSet::allocate"]) for k in (0, 255, 511)] + [
+        Harness("c02_allocate_full", "C02.stream_id_set.allocate.full", "PROVED-C", "all 32768 ids used => None, state unchanged (the unique full state)", functions=[F + "StreamIdSet::allocate"]),
         Harness("c02_new_shape", "C02.stream_id_set.new.shape", "PROVED-C", "StreamIdSet::new: 512 zero words", functions=[F + "StreamIdSet::new"]),
         Harness("c02_canary_allocate_zero", "C02.kani.canary", "PROVED-C", "a false claim must be refuted", carries=False, canary=True),
     ],
